@@ -945,6 +945,49 @@ namespace vf
    struct obs_control_unw : obs_control< Rule, true >
    {};
 
+   // a control that only keeps what the scripted apply0 actions need (the begin of the current match), without any checks;
+   // used underneath facilities that bring their own control (parse_tree)
+   inline std::vector< const char* >& light_begins()
+   {
+      static std::vector< const char* > v;
+      return v;
+   }
+   template< typename Rule >
+   struct light_control : pegtl::normal< Rule >
+   {
+      template< pegtl::apply_mode A,
+                pegtl::rewind_mode M,
+                template< typename... >
+                class Action,
+                template< typename... >
+                class Control,
+                typename ParseInput,
+                typename... States >
+      [[nodiscard]] static bool match( ParseInput& in, States&&... st )
+      {
+         auto& v = light_begins();
+         v.push_back( in.current() );
+         struct popper
+         {
+            std::vector< const char* >& v;
+            ~popper()
+            {
+               v.pop_back();
+            }
+         } guard{ v };
+         return pegtl::normal< Rule >::template match< A, M, Action, Control >( in, st... );
+      }
+      template< template< typename... > class Action, typename ParseInput, typename... States >
+      static auto apply0( const ParseInput& in, States&&... st )
+         -> decltype( pegtl::normal< Rule >::template apply0< Action >( in, st... ) )
+      {
+         monitor& m = mon();
+         const char* bp = light_begins().empty() ? in.current() : light_begins().back();
+         current_call() = { tag_of< Rule >(), m.off( bp ), m.off( in.current() ) };
+         return pegtl::normal< Rule >::template apply0< Action >( in, st... );
+      }
+   };
+
    // a minimal control without match() wrapper (verdicts must not depend on the wrapper)
    template< typename Rule >
    struct plain_control : pegtl::normal< Rule >
